@@ -205,8 +205,10 @@ func c10Case(rs []c10res, order []int, closeEvery int, name string, cli bool, id
 		if o.close {
 			w.Z(0)
 			m.Close()
-			txtOut.Reset()
-			txt.Report(&txtOut)
+			if len(ops) <= 4000 { // the reporter is used again and again only on moderate sequences
+				txtOut.Reset()
+				txt.Report(&txtOut)
+			}
 			continue
 		}
 		r := o.r
